@@ -341,6 +341,7 @@ type vf20Machine struct {
 	sawFail   bool
 	wFirst    bool // BuildHandshakeStateWithoutSession was called before the first session-loading build
 	fieldsPsk bool // a UtlsPreSharedKeyExtension filled through its exported fields was handed to SetPskExtension
+	userPsk   bool // a non-nil PSK extension (initialised or not) was handed over in an allowed position
 	trace     []string
 	log       []string
 }
@@ -454,6 +455,9 @@ func (m *vf20Machine) step(op vf20Op) {
 		default:
 			m.nSetters++
 			lacks := (kind == "ticket" && !env.id.HasTicket) || (kind == "psk" && !env.id.HasPSK)
+			if kind == "psk" && !lacks {
+				m.userPsk = true
+			}
 			switch {
 			case lacks && initialised:
 				// the implementation answers "the user provided a session ticket, but the specification doesn't contain
@@ -657,14 +661,17 @@ func (m *vf20Machine) handshake(op vf20Op) {
 			m.env.id.Name, cerr, serr, strings.Join(m.trace, " "))
 		return
 	}
-	if (cerr != nil || serr != nil) && m.env.id.custom() && m.inj != nil && m.inj.Kind == "psk" && len(m.inj.Ticket) > 0 {
-		// same class as the empty session_ticket: the user's PSK extension never replaced the spec's, but its binder
-		// patch is still applied to the marshalled hello
-		if hs := vfClientHellosOnWire(pair.CP.Written()); len(hs) == 1 && !bytes.Contains(hs[0], m.inj.Ticket) {
-			m.st.Class("outcome:known:custom-spec-session-not-sent")
-			m.st.KnownOrViolation(m.t, vf20KeyCustomDropped, "%s (HelloCustom, ApplyPreset before the setter): the injected PSK identity is not sent and the binder patch corrupts the ClientHello (reference parser: %v); client=%v server=%v; ops=%s",
-				m.env.id.Name, vfParseClientHello(hs[0]).Violations, cerr, serr, strings.Join(m.trace, " "))
-			return
+	if (cerr != nil || serr != nil) && m.env.id.custom() && m.userPsk {
+		// same class as the empty session_ticket: the user's PSK extension (initialised, or initialised by utls from the
+		// cache) never replaced the spec's in the extension list, but its binder patch is still applied to the
+		// marshalled hello, which has no pre_shared_key at its end
+		if hs := vfClientHellosOnWire(pair.CP.Written()); len(hs) == 1 {
+			if ph := vfParseClientHello(hs[0]); ph.PSK() == nil || len(ph.Violations) > 0 {
+				m.st.Class("outcome:known:custom-spec-session-not-sent")
+				m.st.KnownOrViolation(m.t, vf20KeyCustomDropped, "%s (HelloCustom, ApplyPreset before the setter): the user's PSK extension is not sent and its binder patch corrupts the ClientHello (reference parser: %v); client=%v server=%v; ops=%s",
+					m.env.id.Name, ph.Violations, cerr, serr, strings.Join(m.trace, " "))
+				return
+			}
 		}
 	}
 	if cerr != nil || serr != nil {
